@@ -2300,12 +2300,29 @@ class WBEMConnection:  # pylint: disable=too-many-instance-attributes
 
         # #  Original code return tup_tree
 
+        def cimxml_value(value, type_):
+            """
+            Convert the value of a RETURNVALUE or PARAMVALUE element as
+            returned by the tuple parser (i.e. the CIM-XML string for VALUE
+            elements) into a CIM data type object.
+            """
+            if type_ == 'boolean':
+                # cimvalue() would apply Python truth testing to the CIM-XML
+                # strings "TRUE" and "FALSE", turning both into True.
+                if isinstance(value, list):
+                    return [tp.unpack_boolean(v) if isinstance(v, str) else v
+                            for v in value]
+                if isinstance(value, str):
+                    return tp.unpack_boolean(value)
+            return cimvalue(value, type_)
+
         # Convert optional RETURNVALUE into a Python object
         returnvalue = None
 
         if tup_tree and tup_tree[0][0] == 'RETURNVALUE':
 
-            returnvalue = cimvalue(tup_tree[0][2], tup_tree[0][1]['PARAMTYPE'])
+            returnvalue = cimxml_value(tup_tree[0][2],
+                                       tup_tree[0][1]['PARAMTYPE'])
             tup_tree = tup_tree[1:]
 
         # Convert zero or more PARAMVALUE elements into dictionary
@@ -2316,7 +2333,7 @@ class WBEMConnection:  # pylint: disable=too-many-instance-attributes
             if p[1] == 'reference':
                 output_params[p[0]] = p[2]
             else:
-                output_params[p[0]] = cimvalue(p[2], p[1])
+                output_params[p[0]] = cimxml_value(p[2], p[1])
 
         return (returnvalue, output_params)
 
